@@ -103,17 +103,94 @@ def materialise(csets, pkidir, certgen):
     if p.returncode != 0:
         raise SystemExit("INFRA: certgen failed: " + p.stderr[-2000:])
 
-def scripts(csets, pkidir):
+NAME_TYPES = ["any", "host", "cn", "dns", "email", "ip"]
+
+def views(e):
+    """the expected string read as a name of each kind (MxName.MatchOpt's v)"""
+    return dict(dns=absname("dns", e), email=absname("email", e), ip=absname("ip", e))
+
+def optfields(nt, mflags, vflags):
+    return dict(nt=nt, cnalways=bool(mflags & 1), ci=bool(mflags & 2), gnv=bool(vflags & 1), skip=bool(vflags & 2), mflags=mflags, vflags=vflags)
+
+def esc_name(e):
+    return "".join(c if 0x21 <= ord(c) < 0x7f and c != "%" else "%%%02x" % ord(c) for c in e)
+
+def rand_opts(rnd):
+    nt = rnd.choice(NAME_TYPES)
+    mflags = rnd.choice([0, 0, 1, 2, 3])
+    vflags = rnd.choice([0, 0, 0, 0, 0, 1, 2])
+    return nt, mflags, vflags
+
+def name_meta(sl, cn, e, nt, mflags, vflags, layer):
+    m = dict(v=views(e), sans=[san_abs(k, v) for k, v in sl], cn=absname("dns", cn) if cn is not None else absname("none", ""),
+             xs=e, sansrc=[[k, v.encode("latin1").hex()] for k, v in sl], cnsrc=cn, layer=layer)
+    m.update(optfields(nt, mflags, vflags))
+    return m
+
+def scripts(csets, pkidir, seed=0, extra_per_cert=6):
+    """direct calls of matrixValidateCertsExt: every expected name with the name type that goes with its kind, plus
+    extra_per_cert calls per certificate with a random name type / flag setting"""
+    rnd = random.Random(seed * 7919 + 5)
     lines, meta = [], {}
     n = 0
     for sl, cn in csets:
-        for kind, e in EXPECTED:
+        todo = [(e, {"dns": "host", "email": "email", "ip": "ip"}[kind], 0, 0) for kind, e in EXPECTED]
+        for _ in range(extra_per_cert):
+            todo.append((rnd.choice(EXPECTED)[1],) + rand_opts(rnd))
+        for e, nt, mflags, vflags in todo:
             tag = "N%d" % n; n += 1
-            ntype = {"dns": "host", "email": "email", "ip": "ip"}[kind]
-            esc = "".join(c if 0x21 <= ord(c) < 0x7f and c != "%" else "%%%02x" % ord(c) for c in e)
-            lines.append("validate chain=%s ca=%s name=%s ntype=%s tag=%s" % (os.path.join(pkidir, cert_id(sl, cn) + ".pem"),
-                         os.path.join(pkidir, "nroot.pem"), esc, ntype, tag))
-            meta[tag] = dict(x=absname(kind, e), sans=[san_abs(k, v) for k, v in sl],
-                             cn=absname("dns", cn) if cn is not None else absname("none", ""),
-                             xs=e, sansrc=[[k, v.encode("latin1").hex()] for k, v in sl], cnsrc=cn)
+            lines.append("validate chain=%s ca=%s name=%s ntype=%s mflags=%d vflags=%d tag=%s" % (os.path.join(pkidir, cert_id(sl, cn) + ".pem"),
+                         os.path.join(pkidir, "nroot.pem"), esc_name(e), nt, mflags, vflags, tag))
+            meta[tag] = name_meta(sl, cn, e, nt, mflags, vflags, "api")
     return lines, meta
+
+def session_scripts(csets, pkidir, tier, seed):
+    """the same question asked through the session API: a server presenting the generated leaf, a client created with
+    matrixSslNewClientSession(expectedName, options.validateCertsOpts) - TLS 1.2 and TLS 1.3, with and without a
+    certificate callback that passes the library's verdict through.  One episode (up to `reset`) per certificate;
+    returns [(lines, [meta per client state line])]"""
+    rnd = random.Random(seed * 104729 + 11)
+    ncert = 60 if tier == "quick" else 400
+    per = 10 if tier == "quick" else 24
+    # certificates whose parsing succeeds only (a leaf the server cannot load proves nothing): skip control characters / NUL forms
+    usable = [(sl, cn) for sl, cn in csets if not any(any(ord(c) < 0x20 for c in v) and k != "ip" for k, v in sl)]
+    rnd.shuffle(usable)
+    # always: no SAN at all with each CN, single interesting entries
+    first = [c for c in usable if not c[0]] + [c for c in usable if len(c[0]) == 1 and c[1] in (None, "www.a.t")]
+    chosen = []
+    for c in first + usable:
+        if c not in chosen:
+            chosen.append(c)
+        if len(chosen) >= ncert:
+            break
+    eps = []
+    for sl, cn in chosen:
+        lines = ["keys ks id=%s,%s" % (os.path.join(pkidir, cert_id(sl, cn) + ".pem"), os.path.join(pkidir, "nL.key.pem")),
+                 "keys kc ca=%s" % os.path.join(pkidir, "nroot.pem")]
+        metas = []
+        names = [v for k, v in sl if k in ("dns", "email") and all(0x20 < ord(c) < 0x7f for c in v) and "*" not in v]
+        if cn and "*" not in cn:
+            names.append(cn)
+        for i in range(per):
+            # half of the expected names are ones the certificate does carry (possibly only under some options)
+            if names and i % 2 == 0:
+                e = rnd.choice(names)
+                if rnd.random() < 0.3:
+                    e = e.swapcase()
+            else:
+                e = rnd.choice(EXPECTED)[1]
+            if i < 3:
+                nt, mflags, vflags = [("dns", 1, 0), ("any", 0, 0), ("host", 1, 0)][i]      # an illegal combination, the legacy default, CnAlways
+            else:
+                nt, mflags, vflags = rand_opts(rnd)
+            ver = "T13" if (i + len(eps)) % 2 else "T12"
+            cb = rnd.choice(["", "", " cb=strict"])
+            lines += ["new s%d server keys=ks ver=%s" % (i, ver),
+                      "new c%d client keys=kc ver=%s name=%s ntype=%s mflags=%d vflags=%d%s" % (i, ver, esc_name(e), nt, mflags, vflags, cb),
+                      "link c%d s%d" % (i, i), "pump c%d s%d max=40" % (i, i), "state c%d" % i, "del c%d" % i, "del s%d" % i]
+            m = name_meta(sl, cn, e, nt, mflags, vflags, "session")
+            m["ver"] = ver; m["cb"] = cb.strip()
+            metas.append(m)
+        lines.append("reset S%d" % len(eps))
+        eps.append((lines, metas))
+    return eps
